@@ -179,7 +179,7 @@ func Main(args []string) int {
 	rep.Set("rule", "state = (height, owner/beneficiary/expiry/active/sale fields of every domain record, ONS option record in force, proposal records of the price-change macro-operation, OLT balances net of fees) at a block boundary; transition = one whole block (0..2 transactions of the alphabet) executed on the real application by replaying the history from genesis on a fresh replica, the reference registry of the statement compared with the committed domain records, all OLT balances and the fee pool after EVERY block of the history and of "+fmt.Sprint(extensionBlocks)+" quiet blocks appended to it; non-trivial = an execution in which at least one antecedent of a model clause fired (a name or sub-name created, changed by its owner, put on sale, bought on sale or expired, renewed, paid to, a sub-name deleted, the price options changed); every execution is a distinct history")
 	rep.Set("bounds", map[string]interface{}{
 		"alphabet": eventNames(evs), "events": len(evs), "max_depth": depth, "warmup_blocks": warmup, "quiet_extension_blocks": extensionBlocks,
-		"names": []string{nameA, nameB, nameC, nameD}, "users": 3, "base_price_olt": 10, "per_block_olt": "1, then 2 after the price-change macro-operation", "budget_s": budget.Seconds(),
+		"names": []string{nameA, nameB, nameC, nameD, nameE}, "users": 3, "base_price_olt": 10, "per_block_olt": "1, then 2 after the price-change macro-operation", "budget_s": budget.Seconds(),
 	})
 	rep.Assume("states reached through a violation of the statement are not expanded (what follows is undefined by the statement)")
 	rep.Assume("fee-paying transactions change balances by the fee; states are merged on balances net of fees paid (sound because no amount of the alphabet comes near a balance)")
